@@ -15,6 +15,6 @@ Separate Extraction
   Backend.queue_of Backend.pick_sub Backend.skey_eqb Backend.classify
   BackendSpec.targets_ok BackendSpec.live_copy_ok BackendSpec.qos_ok BackendSpec.resub_ok BackendSpec.unsub_ok
   BackendSpec.retained_ok BackendSpec.retained_wf BackendSpec.replay_ok BackendSpec.sessions BackendSpec.refused_ok BackendSpec.closing_accepted_ok
-  BackendC13.unique_ok BackendC13.handover_ok
+  BackendC13.unique_ok BackendC13.handover_ok BackendC13.resume_clean_ok
   BackendC08.offline_queue_ok BackendC08.session_present_ok
   BackendLog.delivery_ok BackendFrame.frame_ok.
